@@ -151,7 +151,7 @@ fn make_base(name: &str, family: &'static str, source: Source) -> Result<Base, S
     };
     let circ = c03::compile(name, &prog, LABEL)?;
     let pd = m3::parse_prover(&circ.prover.to_bytes()).map_err(|e| format!("{}: M3 cannot parse the prover: {}", name, e))?;
-    if pd.size > 64 {
+    if pd.size > 64 && !name.starts_with("c05long") {
         return Err(format!("{}: n = {} exceeds M3's bound", name, pd.size));
     }
     let model = m1::Model::new(&circ.snap);
@@ -299,6 +299,17 @@ pub fn build_world(tier: Tier) -> Result<World, String> {
     let mut specs: Vec<(String, &'static str, Source)> = base_sources().into_iter().map(|(n, f, s)| (n.to_string(), f, s)).collect();
     // S3: c05's copy layouts (zero rows sharing one witness) with broken instances
     let copy_cases: Vec<crate::c05::Case> = crate::c05::enumerate(tier).into_iter().filter(|c| c.name.starts_with("copy/") && c.name.ends_with("/broken")).collect();
+    // ... and the long copy class (ZERO on 1200 filler positions) split next to every
+    // multiple of 1024 positions (quick: a window around the first one)
+    let long_cases: Vec<crate::c05::Case> = crate::c05::enumerate(tier)
+        .into_iter()
+        .filter(|c| c.name.starts_with("long-class-split/filler300/from"))
+        .filter(|c| {
+            let from: usize = c.name.rsplit("from").next().and_then(|t| t.parse().ok()).unwrap_or(0);
+            (from >= 1000 && from <= 1032) || (tier == Tier::Thorough && from % 16 == 0)
+        })
+        .collect();
+    let mut long_index: Vec<(usize, Assign, String)> = Vec::new();
     let mut copy_index: Vec<(usize, Assign, String)> = Vec::new();
     let mut seen: HashMap<u64, usize> = HashMap::new();
     for c in &copy_cases {
@@ -308,6 +319,14 @@ pub fn build_world(tier: Tier) -> Result<World, String> {
             specs.len() - 1
         });
         copy_index.push((bi, c.asg.clone(), c.name.clone()));
+    }
+    for c in &long_cases {
+        let key = c.lay.key();
+        let bi = *seen.entry(key).or_insert_with(|| {
+            specs.push((format!("c05long{:016x}", key), "copy", Source::Rows(c.lay.clone(), vec![rows::zero_assign(&c.lay)])));
+            specs.len() - 1
+        });
+        long_index.push((bi, c.asg.clone(), c.name.clone()));
     }
     let built = crate::par::par_map(&specs, |(n, f, s)| make_base(n, f, s.clone()));
     let mut bases = Vec::new();
@@ -396,6 +415,9 @@ pub fn build_world(tier: Tier) -> Result<World, String> {
     for (bi, asg, cname) in copy_index {
         items.push(Item { name: format!("S3/{}/forced", cname), strategy: "S3", base: bi, work: Work::Forced(Inst::Rows(asg.clone())) });
         items.push(Item { name: format!("S3/{}/m3", cname), strategy: "S3", base: bi, work: Work::M3Drop(Inst::Rows(asg)) });
+    }
+    for (bi, asg, cname) in long_index {
+        items.push(Item { name: format!("S3/{}/forced", cname), strategy: "S3", base: bi, work: Work::Forced(Inst::Rows(asg)) });
     }
     Ok(World { bases, items })
 }
